@@ -37,7 +37,7 @@ SHORT = {"LinConRange": "_linrange", "LinConLE": "_linle", "LinConEQ": "_lineq",
          "RotatedQuadraticConeConstraint": "_rotatedquadcone", "PowerConeConstraint": "_powercone",
          "ExponentialConeConstraint": "_expcone", "GeometricConeConstraint": "_geomcone", "UnaryEncodingConstraint": "_uenc"}
 
-NAME_POOL = ["x", "y['a b']", "z[1,2]", "q[\"NY\"]", "w['back\\slash']", "t['tab\there']", "c['{brace}']", "u", "v[3]", "k['é']", "n['a\"b\"c']"]
+NAME_POOL = ["x", "y['a b']", "z[1,2]", "q[\"NY\"]", "w['back\\slash']", "t['tab\there']", "c['{brace}']", "u", "v[3]", "k['é']", "n['a\"b\"c']", "ctl\x01one", "vt\x0bx", "esc\x1b[0m"]   # incl. control characters other than tab/CR/LF, without any quote
 
 
 @st.composite
